@@ -28,6 +28,12 @@ claimed = {
  "C09": ("pairing on all paths + lock-set + dominance over go/ssa",
          "Decides slot pairing on every exit (enter/defer exit in run, exit/defer enter in EvaluateTargets, no other mover), capacity only under gate.m with the zero test, Wait and decrement in one critical section, +1/-1 deltas, Signal after increment, work inside a slot, waiting outside, limit = runtime.NumCPU().",
          "Trusts go/ssa and Mutex/Cond semantics; the instantaneous bound follows from these but is not observed."),
+ "C10": ("field-sensitive parameter-dependence slices for cache keys vs cached values, must-facts on the version-order callbacks, loop-coverage of the build-list copy (go/ssa)",
+         "Decides only the clauses 'independent of the state of the download cache / of map iteration order' and conformance of dawn's callbacks to the MVS library contract: every resolver cache key covers what its value is computed from (path and version), the on-disk cache directory embeds both, Max/cmpVersion rank the root's empty version greatest and otherwise follow semver, Required answers the root list exactly for the empty path, BuildList copies every element.",
+         "The selection algorithm lives in github.com/pgavlin/mvs (a dependency) and is NOT analysed: minimality/maximality of the selected versions is not decided."),
+ "C11": ("constant-reachability for the Downgrade sentinel, loop-coverage and lookup-before-store facts in transformReqs, must-facts for the no-op case (go/ssa)",
+         "Decides the contract with mvs.Downgrade (Previous answers \"none\", never the empty root version: found and fixed F5; root returned unchanged by Upgrade/Previous), that every existing name of a retained project is kept and only new projects get fresh names, that a fresh name is stored only after a failed lookup of that name, and that requesting the selected version is a no-op.",
+         "Build-list relations after tidy/upgrade/downgrade and query resolution are behavioural (library + VCS) and not decided."),
  "C13": ("effect confinement: must-facts on the dry-run flag for every effectful call site, mutator reachability through the static in-module closure of the up-to-date checks, constant-result check of evaluate implementations",
          "Decides that the body and every record write are on the not-dry-run edge, that the checks that run in dry runs reach no file-system/process mutator, that the dry branch marks changed+succeeded as every real successful evaluation does, that the flag is assigned on every path of RunOptions.apply, and that evaluating is reported before the dry-run test independent of it.",
          "Trusts go/ssa and the mutator table. Effects of user Starlark code are confined by skipping the body, which is what is checked."),
